@@ -227,6 +227,14 @@ impl Store {
     /// As such, there is also no guarantee that the data you see is
     /// already persisted.
     fn tables(&mut self) -> Result<&Tables<'_>> {
+        #[cfg(feature = "verif")]
+        if crate::verif::on_store_access() {
+            if let CurrentTransaction::Write(w) = &mut self.transaction {
+                if let Some(old) = n0_future::time::Instant::now().checked_sub(MAX_COMMIT_DELAY * 4) {
+                    w.since = old;
+                }
+            }
+        }
         let guard = &mut self.transaction;
         let tables = match std::mem::take(guard) {
             CurrentTransaction::None => {
@@ -264,6 +272,14 @@ impl Store {
     /// To ensure that the data is persisted, acquire a snapshot of the database
     /// or call flush.
     fn modify<T>(&mut self, f: impl FnOnce(&mut Tables) -> Result<T>) -> Result<T> {
+        #[cfg(feature = "verif")]
+        if crate::verif::on_store_access() {
+            if let CurrentTransaction::Write(w) = &mut self.transaction {
+                if let Some(old) = n0_future::time::Instant::now().checked_sub(MAX_COMMIT_DELAY * 4) {
+                    w.since = old;
+                }
+            }
+        }
         let guard = &mut self.transaction;
         let tables = match std::mem::take(guard) {
             CurrentTransaction::None => {
